@@ -188,6 +188,8 @@ func convert(k reflect.Kind, s string) (interface{}, error) {
 
 type reqSpec struct {
 	multipart bool                           // form values travel as multipart/form-data
+	stream    bool                           // the body is a stream of unknown length (a chunked request on a streaming server)
+	ctCase    int                            // spelling of the media type: 0 lower case, 1 mixed case, 2 upper-case type with a parameter
 	vals      map[string]map[string][]string // source -> key -> values
 }
 
@@ -210,7 +212,10 @@ func buildReq(rs reqSpec, fields []fieldSpec) (*protocol.Request, param.Params) 
 		ps = append(ps, param.Param{Key: k, Value: vs[0]})
 	}
 	for k, vs := range rs.vals["header"] {
-		req.Header.Set(k, vs[0])
+		// (names reach the handler in canonical spelling whatever the client sent)
+		for _, v := range vs {
+			req.Header.Add(k, v)
+		}
 	}
 	for k, vs := range rs.vals["cookie"] {
 		req.Header.SetCookie(k, vs[0])
@@ -236,9 +241,8 @@ func buildReq(rs reqSpec, fields []fieldSpec) (*protocol.Request, param.Params) 
 			}
 		}
 		b, _ := json.Marshal(m)
-		req.Header.SetContentTypeBytes([]byte("application/json"))
-		req.SetBody(b)
-		req.Header.SetContentLength(len(b))
+		req.Header.SetContentTypeBytes([]byte([]string{"application/json", "Application/JSON", "APPLICATION/json; charset=utf-8"}[rs.ctCase]))
+		setBody(req, b, rs.stream)
 	} else if len(rs.vals["form"]) > 0 {
 		f := url.Values{}
 		for k, vs := range rs.vals["form"] {
@@ -257,16 +261,29 @@ func buildReq(rs reqSpec, fields []fieldSpec) (*protocol.Request, param.Params) 
 				}
 			}
 			mw.Close()
-			req.Header.SetContentTypeBytes([]byte(mw.FormDataContentType()))
-			req.SetBody(mb.Bytes())
-			req.Header.SetContentLength(mb.Len())
+			ct := mw.FormDataContentType()
+			if rs.ctCase > 0 {
+				ct = strings.Replace(ct, "multipart/form-data", []string{"", "Multipart/Form-Data", "MULTIPART/form-data"}[rs.ctCase], 1)
+			}
+			req.Header.SetContentTypeBytes([]byte(ct))
+			setBody(req, mb.Bytes(), rs.stream)
 		} else {
-			req.Header.SetContentTypeBytes([]byte("application/x-www-form-urlencoded"))
-			req.SetBody([]byte(f.Encode()))
-			req.Header.SetContentLength(len(f.Encode()))
+			req.Header.SetContentTypeBytes([]byte([]string{"application/x-www-form-urlencoded", "Application/X-WWW-Form-Urlencoded", "APPLICATION/x-www-form-urlencoded; charset=UTF-8"}[rs.ctCase]))
+			setBody(req, []byte(f.Encode()), rs.stream)
 		}
 	}
 	return req, ps
+}
+
+// setBody gives the request its body the way the server's reader does: complete with its
+// length, or (a chunked request on a streaming server) as a stream of unknown length
+func setBody(req *protocol.Request, b []byte, stream bool) {
+	if stream {
+		req.SetBodyStream(bytes.NewReader(b), -1)
+		return
+	}
+	req.SetBody(b)
+	req.Header.SetContentLength(len(b))
 }
 
 // reference: returns expected field values (as fmt strings) or error expected
@@ -379,12 +396,13 @@ func observe(fields []fieldSpec, v reflect.Value) map[string]string {
 func main() {
 	mon.Main(&mon.Spec{
 		ID: "C15",
-		Rule: "each case = one struct type built at run time with reflect.StructOf (1..6 fields; kinds bool, intN, uintN, floatN, string, pointers and slices thereof; any subset of the path/form/query/cookie/header/json tags, default, required) bound against 4 requests that place distinct source-coded values in a seeded subset of the sources; every (type, request) is bound on a fresh binder (cold decoder cache), on the shared default binder (warm) and again, and in the concurrent family by 8 goroutines binding different and identical types at once under the race detector; fields are read back by reflection and compared with a table-driven reference binder; " +
+		Rule: "each case = one struct type built at run time with reflect.StructOf (1..6 fields; kinds bool, intN, uintN, floatN, string, pointers and slices thereof; any subset of the path/form/query/cookie/header/json tags, default, required) bound against 4 requests that place distinct source-coded values in a seeded subset of the sources (bodies as JSON, urlencoded or multipart forms, complete or as a stream of unknown length, media types in lower, mixed and upper case with and without parameters, header tags in canonical and other spellings, repeated headers for slices, present-but-empty values); every (type, request) is bound on a fresh binder (cold decoder cache), on the shared default binder (warm) and again, and in the concurrent family by 8 goroutines binding different and identical types at once under the race detector; fields are read back by reflection and compared with a table-driven reference binder; " +
 			"distinct = hash of (type description, request values); non-trivial = type has at least 2 fields or a field with at least 2 source tags",
 		Assumptions: []string{
 			"priority path > form > query > cookie > header > JSON body restricted to the tags present; the form source also consults the query string (hertz's documented getter); JSON applies only with a JSON content type",
 			"conversion follows strconv per kind; a conversion error must be an error, not a silent zero",
-			"untagged fields are not generated; one body per request (JSON or urlencoded form)",
+			"untagged fields are not generated; one body per request (JSON, urlencoded or multipart form)",
+			"media types and header field names are case-insensitive; a key present with the empty text is present in every source encoding",
 		},
 		Procs: 8,
 		Shards: func(t string) int {
@@ -413,12 +431,14 @@ func genFields(r *mon.Rand) []fieldSpec {
 		}
 		for _, s := range srcOrder {
 			if r.Chance(3) {
-				if f.slice && (s == "path" || s == "cookie" || s == "header") {
+				if f.slice && (s == "path" || s == "cookie") {
 					continue
 				}
 				f.tags[s] = fmt.Sprintf("k%d%s", i, s[:1])
 				if s == "header" {
-					f.tags[s] = fmt.Sprintf("X-K%d", i)
+					// field names are case-insensitive: the tag is spelled the canonical way or
+					// another way
+					f.tags[s] = fmt.Sprintf(r.Str("X-K%d", "x-k%d", "X-k%d"), i)
 				}
 				if r.Chance(6) {
 					f.required[s] = true
@@ -501,18 +521,18 @@ func genReqSpec(r *mon.Rand, fields []fieldSpec) reqSpec {
 			rs.vals["query"][key] = []string{genValue(r, f.kind, 3)}
 		}
 	}
+	// (a multipart part with an empty value is a key present with the empty text, as k= is in
+	// an urlencoded body)
 	rs.multipart = r.Chance(3)
-	for _, vs := range rs.vals["form"] {
-		for _, v := range vs {
-			if v == "" {
-				// a multipart part with an empty value: hertz reads it as absent (unlike k= in a
-				// urlencoded body); whether that counts as "present" is not pinned down by the
-				// property, so the combination is not generated
-				rs.multipart = false
-			}
-		}
+	rs.stream = r.Chance(5)
+	if r.Chance(3) {
+		rs.ctCase = 1 + r.Intn(2)
 	}
 	return rs
+}
+
+func (rs reqSpec) desc() string {
+	return fmt.Sprintf("%v multipart=%v stream-of-unknown-length=%v media-type-spelling=%d", rs.vals, rs.multipart, rs.stream, rs.ctCase)
 }
 
 func typeOf(fields []fieldSpec) reflect.Type {
@@ -608,13 +628,13 @@ func work(w *mon.W) {
 				got, err := bindOnce(b, t, fields, rs)
 				w.Count("binds", 1)
 				if key, msg := judge(fields, rs, got, err); key != "" {
-					c.Violate(key, "%s, use #%d: %s\n   type %s\n   request %v", mode, use, msg, describe(fields), rs.vals)
+					c.Violate(key, "%s, use #%d: %s\n   type %s\n   request %v", mode, use, msg, describe(fields), rs.desc())
 					return
 				}
 				if use == 0 {
 					first, firstErr = got, err
 				} else if fmt.Sprint(got) != fmt.Sprint(first) || (err == nil) != (firstErr == nil) {
-					c.Violate("unstable", "the result of binding differs between first and later use: first %v/%v, now %v/%v; type %s request %v", first, firstErr, got, err, describe(fields), rs.vals)
+					c.Violate("unstable", "the result of binding differs between first and later use: first %v/%v, now %v/%v; type %s request %v", first, firstErr, got, err, describe(fields), rs.desc())
 					return
 				}
 			}
@@ -622,7 +642,7 @@ func work(w *mon.W) {
 				w.Count("expected_errors", 1)
 			}
 			if nontrivial(fields) {
-				w.Shape(mon.Hash64(describe(fields), fmt.Sprint(rs.vals)))
+				w.Shape(mon.Hash64(describe(fields), rs.desc()))
 			}
 		}
 		if w.WantSample() && len(fields) >= 2 {
@@ -658,7 +678,7 @@ func work(w *mon.W) {
 						sub := &mon.Case{W: w, I: c.I, G: c.G, R: gr, Detail: func() interface{} {
 							return map[string]interface{}{"type": describe(fields), "request": rs.vals, "concurrent": true}
 						}}
-						sub.Violate(key, "concurrent bind (goroutine %d): %s\n   type %s\n   request %v", g, msg, describe(fields), rs.vals)
+						sub.Violate(key, "concurrent bind (goroutine %d): %s\n   type %s\n   request %v", g, msg, describe(fields), rs.desc())
 						mu.Unlock()
 						return
 					}
